@@ -253,6 +253,40 @@ def build_big(b, env, spec, path, work):
         raise zoo.ZooError("e2fsck -fyD failed for %s: rc=%s %s" % (spec["name"], r.rc, r.text[-300:]))
 
 
+def build_tiny(b, env, spec, path, work):
+    """A tiny filesystem filled to the last block - with directories ("meta": every block is
+    metadata, -Q stores them all) or with one file of dense data ("data", for -Qa) - so that the
+    qcow2 file (payload + header, L1, L2 and refcount clusters) is LARGER than the filesystem and
+    host offsets exceed the guest size; the last filesystem block is in use and non-zero."""
+    bs, blocks = spec["bs"], spec["blocks"]
+    with open(path, "wb") as f:
+        f.truncate(blocks * bs)
+    r = run.run([b.tool("mke2fs"), "-q", "-F", "-t", "ext2", "-b", str(bs), "-m", "0", "-N", "112", "-I", "128",
+                 "-O", "^resize_inode,^dir_index", "-U", zoo.UUID, "-L", spec["name"][:16], path], env=env,
+                timeout=120)
+    if r.rc != 0:
+        raise zoo.ZooError("mke2fs failed for %s: %s" % (spec["name"], r.etext[-300:]))
+
+    def free():
+        with I.Image(path) as im:
+            return sum(g.free_blocks for g in im.group_descs())
+    if spec["fill"] == "meta":
+        run.run([b.tool("debugfs"), "-w", "-f", "-", path], env=env, timeout=300,
+                stdin="".join("mkdir /d%03d\n" % i for i in range(100)).encode())
+    n = 0
+    while free() > 0 and n < 6:
+        hf = os.path.join(work, "fill%d" % n)
+        with open(hf, "wb") as f:
+            for k in range(free()):
+                f.write(bytes(((k * 5 + o + n) % 251) + 1 for o in range(bs)))
+        run.run([b.tool("debugfs"), "-w", "-R", "write %s fill%d" % (hf, n), path], env=env, timeout=300)
+        os.unlink(hf)
+        n += 1
+    r = run.run([b.tool("e2fsck"), "-fy", path], env=env, timeout=300)
+    if r.rc is None or r.rc & ~3:
+        raise zoo.ZooError("e2fsck -fy failed for %s: rc=%s" % (spec["name"], r.rc))
+
+
 def add_pending_transaction(b, env, path, work):
     """leave one committed, unreplayed transaction in the journal (debugfs journal writer)"""
     sf = os.path.join(work, "jscript")
@@ -300,6 +334,9 @@ def _one(arg):
         src = os.path.join(sub, "src.img")
         if spec["kind"] == "big":
             build_big(b, env, spec, src, sub)
+        elif spec["kind"] == "tiny":
+            build_tiny(b, env, spec, src, sub)
+            modes = ALL_MODES
         else:
             shutil.copyfile(zoo.corpus_image(spec["corpus"], workdir), src)
             if spec["kind"] == "corpus+jnl":
@@ -550,6 +587,10 @@ def plan(tier, seed, scale):
     for s in big_specs(rng, nbig):
         s["kind"] = "big"
         specs.append(s)
+    for k in range(2 if tier == "quick" else 8):
+        fill = ("meta", "data")[k % 2]
+        blocks = rng.choice([120, 160, 200, 256]) if k < 6 else rng.choice([500, 1000])
+        specs.append(dict(kind="tiny", name="tiny%d_%s_%d" % (k, fill, blocks), bs=1024, blocks=blocks, fill=fill))
     return specs
 
 
@@ -568,7 +609,7 @@ def main(tier, seed, replay=None, scale=1.0):
         else:
             specs = plan(tier, seed, scale)
         for s in specs:
-            if s["kind"] != "big":
+            if s.get("corpus"):
                 zoo.corpus_image(s["corpus"], w.dir)
         # the large sparse images first: they take longest
         specs.sort(key=lambda s: s["kind"] != "big")
